@@ -10,7 +10,7 @@ TRUSTED = BASE_TRUSTED + [
     "modelled, not verified: the backend's retry ladder after a refused raw allocation, region bookkeeping of memory pools, pool_identify — "
     "covered by fault enumeration (every index k of the raw-allocation trace fails once) with a raw-memory ledger and fill patterns",
 ]
-KN = {1: "calloc", 2: "posix_memalign", 3: "aligned_malloc", 4: "malloc"}
+KN = {1: "calloc", 2: "posix_memalign", 3: "aligned_malloc", 4: "malloc", 5: "realloc-of-malloc"}
 
 
 def gdesc(c):
@@ -31,6 +31,14 @@ def guards_compare(ctx, exe, cases):
         ctx.count(("guards", tuple(c)), True, "guards")
         if len(ctx.samples) < 3:
             ctx.sample({"tie": "malloc-guards", "case": gdesc(c), "impl": ln[:120], "model": mo})
+        if "MSIZE-BELOW-REQUEST" in toks or "OLD-BLOCK-CORRUPTED" in toks or (toks and toks[-1] == "HANG"):
+            bad += 1
+            j = (len([t for t in toks if t.isdigit()]) // 2)
+            cur = c[3 * j:3 * j + 3] if toks[-1] == "HANG" and 3 * j + 2 < len(c) else c
+            key = "realloc-near-size-max" if 5 in c[0::3] else "malloc-guard-hang"
+            ctx.add(Finding("violation", key, "%s: %s" % (gdesc(cur), "the call never returns (watchdog)" if toks[-1] == "HANG" else
+                            "a block smaller than requested was returned / the old block was damaged"), {"tie": "malloc-guards", "case": cur}))
+            continue
         if len(toks) != 2 * len(mo):
             bad += 1
             ctx.add(Finding("violation", "malloc-guard-crash", "%s: the allocator crashed / produced no answer (%s)" % (gdesc(c), ln[-60:]), {"tie": "malloc-guards", "case": c}))
@@ -40,7 +48,7 @@ def guards_compare(ctx, exe, cases):
             succ, cls = int(toks[2 * j]), int(toks[2 * j + 1])
             k, a, b = c[3 * j:3 * j + 3]
             what = "%s(%d,%d)" % (KN[k], a, b)
-            nbytes = a * b if k == 1 else (max(a, b) if k in (2, 3) else a)
+            nbytes = a * b if k == 1 else (max(a, b) if k in (2, 3) else (b if k == 5 else a))
             if succ and not m:
                 ok = False
                 ctx.add(Finding("violation", "malloc-unrepresentable-request-succeeded",
@@ -79,6 +87,9 @@ def gen_guards(ctx):
         for e in (3, 6, 12, 20, 32, 33, 62, 63):
             add(3, s, 1 << e)
             add(2, 1 << e, s)
+    for old in (100, 9000, 1 << 20, 2 << 20, 9 << 20, 40 << 20):   # realloc of small / large / mremap-able blocks to near-SIZE_MAX sizes
+        for new in (M - 1, M - 16, M - 17, M - 100000, M - (1 << 20), M - (2 << 20) - 4096, M - (40 << 20), (1 << 63) + 5, 1 << 62, 50, old // 2, old + 1, 3 * old):
+            add(5, old, new)
     for a in (0, 1, 2, 3, 4, 6, 7, 12, 24, 100, (1 << 63) + 1, M - 1, 3 << 62):   # invalid alignments
         add(2, a, 100); add(3, 100, a)
     sq = [0, 1, 2, 3, (1 << 32) - 1, 1 << 32, (1 << 32) + 1, 1 << 33, (1 << 31) + 1, 1 << 63, M - 1, M // 3, M // 3 + 1, M // 5 + 1, 1 << 16, 1 << 48, (1 << 48) + 1]
